@@ -145,29 +145,41 @@ def group_fields(leaves):
     return out
 
 
-def gen_level_code(level, var, mode, ind, uid):
+def gen_level_code(level, var, mode, ind, uid, tag=None):
     """mode: 'ra' decode random access | 'cur' decode with cursor | 'enc' encode random access |
     'enccur' encode with cursor. Emits C++ statements operating on view `var`,
     prefix string `pfx`, cursor `c`, token queue `tq`."""
     L = []
     use_c = mode in ('cur', 'enccur')
-    enc = mode in ('enc', 'enccur')
+    enc = mode in ('enc', 'enccur', 'enctag')
+    by_tag = mode == 'enctag' and tag is not None
     for fname, lfs in group_fields(level['leaves']):
         single = len(lfs) == 1 and len(lfs[0]['path']) == 1
         if single and lfs[0]['kind'] != 'array':
             lf = lfs[0]
             if enc:
-                if use_c:
+                if by_tag:
+                    L.append('%s{ using T = decltype(%s.%s()); sbepp::set_by_tag<%s::%s>(%s, gd::make<T>(tq.num())); }' % (
+                        ind, var, fname, tag, fname, var))
+                elif use_c:
                     L.append('%s{ using T = decltype(%s.%s()); %s.%s(gd::make<T>(tq.num()), c); }' % (ind, var, fname, var, fname))
                 else:
                     L.append('%s{ using T = decltype(%s.%s()); %s.%s(gd::make<T>(tq.num())); }' % (ind, var, fname, var, fname))
             else:
                 call = '%s.%s(c)' % (var, fname) if use_c else '%s.%s()' % (var, fname)
                 L.append('%sgd::obs(out, pfx + "%s", gd::bits_of(%s));' % (ind, fname, call))
+                if mode == 'ra' and tag is not None:
+                    L.append('%sif(gd::bits_of(sbepp::get_by_tag<%s::%s>(%s)) != gd::bits_of(%s.%s())) out.push_back("BYTAG-MISMATCH:" + pfx + "%s");' % (
+                        ind, tag, fname, var, var, fname, fname))
         else:
             fv = 'fv%d' % next(uid)
             call = '%s.%s(c)' % (var, fname) if use_c else '%s.%s()' % (var, fname)
+            if by_tag:
+                call = 'sbepp::get_by_tag<%s::%s>(%s)' % (tag, fname, var)
             L.append('%s{ auto %s = %s;' % (ind, fv, call))
+            if mode == 'ra' and tag is not None:
+                L.append('%s  if(sbepp::addressof(sbepp::get_by_tag<%s::%s>(%s)) != sbepp::addressof(%s)) out.push_back("BYTAG-MISMATCH:" + pfx + "%s");' % (
+                    ind, tag, fname, var, fv, fname))
             for lf in lfs:
                 expr = cpp_path(fv, lf['path'][1:]) if len(lf['path']) > 1 else fv
                 pstr = '.'.join(lf['path'])
@@ -189,7 +201,12 @@ def gen_level_code(level, var, mode, ind, uid):
         ev = 'e%d' % next(uid)
         iv = 'i%d' % next(uid)
         call = '%s.%s(c)' % (var, g['name']) if use_c else '%s.%s()' % (var, g['name'])
+        if by_tag:
+            call = 'sbepp::get_by_tag<%s::%s>(%s)' % (tag, g['name'], var)
         L.append('%s{ auto %s = %s;' % (ind, gv, call))
+        if mode == 'ra' and tag is not None:
+            L.append('%s  if(sbepp::addressof(sbepp::get_by_tag<%s::%s>(%s)) != sbepp::addressof(%s)) out.push_back("BYTAG-MISMATCH:" + pfx + "%s");' % (
+                ind, tag, g['name'], var, gv, g['name']))
         if enc:
             L.append('%s  { using NT = typename decltype(%s)::sbe_size_type; auto gh = sbepp::fill_group_header(%s, NT{static_cast<typename NT::value_type>(tq.num())}); if(sbepp::addressof(gh) != sbepp::addressof(%s)) { gd::bad_header_view = true; } }' % (ind, gv, gv, gv))
         else:
@@ -204,13 +221,15 @@ def gen_level_code(level, var, mode, ind, uid):
         if not enc and not use_c:
             L.append('%s    out.push_back(pfx + ":sz=" + std::to_string(sbepp::size_bytes(%s)));' % (ind, ev))
         L.append('%s    pfx += ".";' % ind)
-        L += gen_level_code(g['level'], ev, mode, ind + '    ', uid)
+        L += gen_level_code(g['level'], ev, mode, ind + '    ', uid, (tag + '::' + g['name']) if tag else None)
         L.append('%s    pfx = pfx_save; %s++;' % (ind, iv))
         L.append('%s  }' % ind)
         L.append('%s}' % ind)
     for d in level['datas']:
         dv = 'd%d' % next(uid)
         call = '%s.%s(c)' % (var, d['name']) if use_c else '%s.%s()' % (var, d['name'])
+        if by_tag:
+            call = 'sbepp::get_by_tag<%s::%s>(%s)' % (tag, d['name'], var)
         if enc and use_c:
             # write through a non-moving cursor first, then advance
             L.append('%s{ auto %s = %s.%s(sbepp::cursor_ops::dont_move(c)); gd::set_data(%s, tq.bytes()); %s.%s(c); }' % (
@@ -253,7 +272,8 @@ def counter():
 
 def gen_driver(pkg, layout):
     """C++ source of the driver for all messages of one schema"""
-    src = ['#define SBEPP_ENABLE_ASSERTS_WITH_HANDLER', '#include <%s/%s.hpp>' % (pkg, pkg), '#include "gen_driver.hpp"', '']
+    src = ['#define SBEPP_ENABLE_ASSERTS_WITH_HANDLER', '#include <%s/%s.hpp>' % (pkg, pkg), '#include "gen_driver.hpp"',
+           '#include "c19_visitor.hpp"', '']
     names = []
     for m in layout['messages']:
         if 'error' in m:
@@ -275,7 +295,7 @@ def gen_driver(pkg, layout):
             src.append('  }')
             if mode == 'cur':
                 src.append('  auto c = sbepp::init_cursor(m);')
-            src += gen_level_code(m['level'], 'm', mode, '  ', uid)
+            src += gen_level_code(m['level'], 'm', mode, '  ', uid, '::%s::schema::messages::%s' % (pkg, n))
             if mode == 'cur':
                 src.append('  out.push_back("size=" + std::to_string(sbepp::size_bytes(m, c)));')
                 src.append('  out.push_back("cursor=" + std::to_string(c.pointer() - buf.p));')
@@ -287,13 +307,13 @@ def gen_driver(pkg, layout):
                 src.append('    out.push_back("trait=" + std::to_string(::sbepp::message_traits<::%s::schema::messages::%s>::size_bytes(%s)));' % (pkg, n, args))
                 src.append('  }')
             src.append('}')
-        for mode in ('enc', 'enccur'):
+        for mode in ('enc', 'enccur', 'enctag'):
             src.append('static std::size_t %s_%s(%s<char> m, gd::tokens& tq, gd::span buf) {' % (mode, n, cls))
             src.append('  std::string pfx; (void)buf;')
             src.append('  { auto mh = sbepp::fill_message_header(m); if(sbepp::addressof(mh) != sbepp::addressof(m)) { gd::bad_header_view = true; } }')
             if mode == 'enccur':
                 src.append('  auto c = sbepp::init_cursor(m);')
-            src += gen_level_code(m['level'], 'm', mode, '  ', uid)
+            src += gen_level_code(m['level'], 'm', mode, '  ', uid, '::%s::schema::messages::%s' % (pkg, n))
             if mode == 'enccur':
                 src.append('  return static_cast<std::size_t>(c.pointer() - buf.p);')
             else:
@@ -306,8 +326,10 @@ def gen_driver(pkg, layout):
                    '[](gd::span b, std::vector<std::string>& o, const std::vector<std::uint64_t>& a){ dec_ra_%s(sbepp::make_view<%s>(b.p, b.n), o, b, a); },'
                    '[](gd::span b, std::vector<std::string>& o){ dec_cur_%s(sbepp::make_view<%s>(b.p, b.n), o, b); },'
                    '[](gd::span b, gd::tokens& t){ return enc_%s(sbepp::make_view<%s>(b.p, b.n), t, b); },'
-                   '[](gd::span b, gd::tokens& t){ return enccur_%s(sbepp::make_view<%s>(b.p, b.n), t, b); }}},' % (
-                       n, n, cls, n, cls, n, cls, n, cls))
+                   '[](gd::span b, gd::tokens& t){ return enccur_%s(sbepp::make_view<%s>(b.p, b.n), t, b); },'
+                   '[](gd::span b, long k, std::vector<std::string>& o, bool& s, long& c){ c19::run(sbepp::make_view<%s>(b.p, b.n), b, k, o, s, c); },'
+                   '[](gd::span b, gd::tokens& t){ return enctag_%s(sbepp::make_view<%s>(b.p, b.n), t, b); }}},' % (
+                       n, n, cls, n, cls, n, cls, n, cls, cls, n, cls))
     src.append('}); }')
     return '\n'.join(src) + '\n'
 
